@@ -19,8 +19,11 @@ CLS_YAML = [
         {"decl": "Cls(int v)"}, {"decl": "~Cls()"}, {"decl": "int get() const"}, {"decl": "void set(int v)"},
         {"decl": "bool positive(bool strict) const"},
         {"decl": "static int count()"}, {"decl": "Cls * clone() +owner(caller)"},
-        {"decl": "int add(const Cls & other, Cls * third)"}]},
+        {"decl": "int add(const Cls & other, Cls * third)"},
+        # objects returned by value, plain and const qualified (docs/classes.rst, classes.yaml getClassCopy)
+        {"decl": "Cls dup() const"}, {"decl": "const Cls cdup() const"}]},
     {"decl": "Cls * make(int v) +owner(caller)"},
+    {"decl": "const Cls fresh(int v)"},
 ]
 
 CLS_HPP = """
@@ -35,8 +38,12 @@ public:
     static int count();
     Cls *clone();
     int add(const Cls &other, Cls *third);
+    Cls();
+    Cls dup() const;
+    const Cls cdup() const;
 };
 Cls *make(int v);
+const Cls fresh(int v);
 """
 
 CLS_CPP = """
@@ -71,6 +78,10 @@ int Cls::add(const Cls &other, Cls *third) {
     vt_begin("LibEnter", "Cls::add"); vt_target("ns1::Cls::add(const Cls&,Cls*)"); vt_obj(this); vt_obj(&other); vt_obj(third); vt_end();
     int rv = value + 10 * other.value + 100 * third->value;
     vt_begin("LibExit", "Cls::add"); vt_target("ns1::Cls::add(const Cls&,Cls*)"); vt_int(rv); vt_end(); return rv; }
+Cls::Cls() : value(0) { ncls_++; vt_live(1); }
+Cls Cls::dup() const { Cls rv; rv.value = value + 2000; return rv; }
+const Cls Cls::cdup() const { Cls rv; rv.value = value + 3000; return rv; }
+const Cls fresh(int v) { Cls rv; rv.value = v; return rv; }
 Cls *make(int v) {
     vt_begin("LibEnter", "make"); vt_target("ns1::make(int)"); vt_int(v); vt_end();
     Cls *rv = new Cls(v);
@@ -140,16 +151,39 @@ def yaml_decl(c):
     return d
 
 
-def gen_library(cases, with_class, extra_options=None, language="c++", ns="ns1"):
-    decls = [{"decl": "enum Color { RED = 1, BLUE = 5 }"}, {"decl": "struct Pt { int x; double y; }"}]
+DERIVED_YAML = [
+    {"decl": "class Derived : public Cls", "declarations": [
+        {"decl": "Derived(int v, int w)"}, {"decl": "~Derived()"}, {"decl": "int extra() const"}]},
+]
+DERIVED_HPP = """
+class Derived : public Cls {
+public:
+    int more;
+    Derived(int v, int w);
+    ~Derived();
+    int extra() const;
+};
+"""
+DERIVED_CPP = """
+Derived::Derived(int v, int w) : Cls(v), more(w) { }
+Derived::~Derived() { }
+int Derived::extra() const { return more; }
+"""
+
+
+def gen_library(cases, with_class, extra_options=None, language="c++", ns="ns1", derived=False):
+    decls = [{"decl": "enum Color { RED = 1, BLUE = 5 }"}, {"decl": "struct Pt { int x; double y; }"},
+             {"decl": "typedef int TypeID"}, {"decl": "typedef char Name"}]
     decls += [yaml_decl(c) for c in cases]
     if with_class:
         decls += CLS_YAML
+        if derived:
+            decls += DERIVED_YAML
     y = {"library": "sub", "cxx_header": "sub.hpp",
          "options": dict({"debug": True, "wrap_fortran": False, "wrap_python": False, "wrap_lua": False}, **(extra_options or {})),
          "declarations": [{"decl": "namespace ns1", "declarations": decls}] if ns else decls}
     hpp = ["#ifndef SUB_HPP", "#define SUB_HPP", "#include <string>", "#include <vector>", "namespace ns1 {" if ns else "",
-           "enum Color { RED = 1, BLUE = 5 };", "struct Pt { int x; double y; };"]
+           "enum Color { RED = 1, BLUE = 5 };", "struct Pt { int x; double y; };", "typedef int TypeID;", "typedef char Name;"]
     cpp = ['#include "sub.hpp"', '#include "vt.h"', "#include <cstring>", "#include <cstdio>", "namespace ns1 {" if ns else ""]
     for ci, c in enumerate(cases):
         for tt in (c.get("template") or [None]):
@@ -170,7 +204,8 @@ def gen_library(cases, with_class, extra_options=None, language="c++", ns="ns1")
                 head = "%s %s(%s)" % (rr["cxx"], c["name"], ", ".join(ptxt))
             else:
                 if tt == c["template"][0]:
-                    gen = ", ".join(("T " + p["name"]) if p["kind"] == "T_v" else fmt(row(p)["cxx"], n=p["name"]) for p in c["params"])
+                    gen = ", ".join((("T " + p["name"]) if p["kind"] == "T_v" else fmt(row(p)["cxx"], n=p["name"])) +
+                                    (" = " + p["default"] if "default" in p else "") for p in c["params"])
                     hpp.append("template<typename T> %s %s(%s);" % ("T" if c["result"] == "T" else rr["cxx"], c["name"], gen))
                 head = "template<> %s %s<%s>(%s)" % (rr["cxx"], c["name"], tt, ", ".join(ptxt))
             body = ["    long acc = %d;" % (7 * ci + 3)]
@@ -205,6 +240,9 @@ def gen_library(cases, with_class, extra_options=None, language="c++", ns="ns1")
     if with_class:
         hpp.append(CLS_HPP)
         cpp.append(CLS_CPP)
+        if derived:
+            hpp.append(DERIVED_HPP)
+            cpp.append(DERIVED_CPP)
     hpp += ["}" if ns else "", "#endif"]
     cpp += ["}" if ns else "/*end*/"]
     return y, "\n".join(hpp) + "\n", "\n".join(cpp) + "\n"
@@ -256,7 +294,7 @@ def c_expected_types(c, tt, nsup):
     for p in c["params"][:nsup]:
         r = row(p, tt)
         k = p["kind"] if p["kind"] != "T_v" else {"int": "int_v", "double": "double_v"}[tt]
-        ct = {"int_v": "int", "long_v": "long", "double_v": "double", "bool_v": "bool", "enum_v": "int",
+        ct = {"tdint_v": "int", "tdstr_in": "constchar*", "int_v": "int", "long_v": "long", "double_v": "double", "bool_v": "bool", "enum_v": "int",
               "int_pin": "constint*", "int_pout": "int*", "int_pinout": "int*", "int_ref": "int*", "dbl_cref": "constdouble*",
               "dbl_pout": "double*", "bool_pinout": "bool*", "cstr_in": "constchar*", "str_cref": "constchar*",
               "str_ref_inout": "char*", "str_ref_out": "char*", "pt_v": "SUB_pt", "pt_pinout": "SUB_pt*",
